@@ -363,6 +363,12 @@ Definition save (o : opts) (ls : list line) : list fsop * bool :=
     (flat_map (fun f => [OpWrite (f ++ tmp_suffix) (file_content f ls); OpRename (f ++ tmp_suffix) f]) files,
      match files with [] => false | _ => true end).
 
+(* one printed AUTOFIX line: Logf(AutofixLogLevel, line.Filename(), lineno, ..., description) *)
+Record logline := Log { g_file : str; g_descr : descr; g_lineno : Z }.
+
+Definition log_of (l : line) (printed : list (descr * Z)) : list logline :=
+  map (fun p => Log (l_file l) (fst p) (snd p)) printed.
+
 (* ---------- plistLineSorter ---------- *)
 
 (* PlistChecker.newLines: strip leading ${PLIST.cond} prefixes off line.Text
@@ -457,7 +463,7 @@ Definition dummy_line : line := Line [] 0 [] [] None.
 (* plistLineSorter.Sort on the lines [store] (in file order) with the keys taken at load time.
    Result: the lines, the AUTOFIX lines printed, the file operations, s.autofixed *)
 Definition plist_sort (o : opts) (keys : list pkey) (store : list line)
-  : result (list line * list (descr * Z) * list fsop * bool) :=
+  : result (list line * list logline * list fsop * bool) :=
   let unchanged := Ok (store, [], [], false) in
   let '(header, middle, footer) := split_plist (combine (seq 0 (length keys)) keys) in
   if existsb (fun p => has_prefix at_sign (k_text (snd p)) || contains (k_text (snd p)) dollar) middle
@@ -489,7 +495,7 @@ Definition plist_sort (o : opts) (keys : list pkey) (store : list line)
           let store' := set_nth first l4 store in
           let view := map (fun p => nth (fst p) store' dummy_line) (header ++ sorted ++ footer) in
           let (ops, autofixed) := save o view in
-          Ok (store', printed, ops, autofixed)
+          Ok (store', log_of l4 printed, ops, autofixed)
         end
     end.
 
@@ -549,12 +555,7 @@ Inductive event :=
 | ESort                 (* plistLineSorter.Sort, then SaveAutofixChanges(plainLines) unless autofixed *)
 | EChmod (file : str) (executable committed : bool).
 
-Record logline := Log { g_file : str; g_descr : descr; g_lineno : Z }.
-
 Record state := State { s_store : list line; s_log : list logline; s_ops : list fsop }.
-
-Definition log_of (l : line) (printed : list (descr * Z)) : list logline :=
-  map (fun p => Log (l_file l) (fst p) (snd p)) printed.
 
 Definition step (o : opts) (keys : list pkey) (e : event) (s : state) : result state :=
   match e with
@@ -569,9 +570,8 @@ Definition step (o : opts) (keys : list pkey) (e : event) (s : state) : result s
     let (ops, _) := save o (s_store s) in Ok (State (s_store s) (s_log s) (s_ops s ++ ops))
   | ESort =>
     do (store', printed, ops, autofixed) <- plist_sort o keys (s_store s);
-    let first_file := match s_store s with l :: _ => l_file l | [] => [] end in
     let ops2 := if autofixed then [] else fst (save o store') in
-    Ok (State store' (s_log s ++ map (fun p => Log first_file (fst p) (snd p)) printed) (s_ops s ++ ops ++ ops2))
+    Ok (State store' (s_log s ++ printed) (s_ops s ++ ops ++ ops2))
   | EChmod file x c =>
     do (printed, ops) <- check_executable o file x c;
     Ok (State (s_store s) (s_log s ++ map (fun p => Log file (fst p) (snd p)) printed) (s_ops s ++ ops))
